@@ -829,21 +829,70 @@ pub fn exec(lineno: usize, l: &str) -> String {
 }
 
 pub fn run(args: &[String]) {
+    use std::sync::atomic::{AtomicUsize, Ordering};
+    use std::sync::{Arc, Mutex};
     let verbose = args.iter().any(|a| a == "--verbose");
+    // watchdog: a case that does not return within HANG_SECS is reported as `HANG <case>` on the output
+    // (in place of its result line) and the process exits with status 3, so that a non-terminating loop in
+    // the implementation becomes a concrete replay instead of a stuck check
+    const HANG_SECS: u64 = 20;
+    let progress = Arc::new(AtomicUsize::new(0));
+    let current = Arc::new(Mutex::new(String::new()));
+    let done_out = Arc::new(Mutex::new(Vec::<u8>::new()));
+    {
+        let (progress, current, done_out) = (progress.clone(), current.clone(), done_out.clone());
+        std::thread::spawn(move || {
+            let mut last = usize::MAX;
+            let mut stale = 0u64;
+            loop {
+                std::thread::sleep(std::time::Duration::from_secs(1));
+                let now = progress.load(Ordering::SeqCst);
+                if now == last && now != 0 {
+                    stale += 1;
+                } else {
+                    stale = 0;
+                    last = now;
+                }
+                if stale >= HANG_SECS {
+                    let case = current.lock().map(|c| c.clone()).unwrap_or_default();
+                    let mut out = std::io::stdout();
+                    if let Ok(buf) = done_out.lock() {
+                        let _ = out.write_all(&buf);
+                    }
+                    let _ = writeln!(out, "HANG {case}");
+                    let _ = out.flush();
+                    eprintln!("HANG: no return within {HANG_SECS}s on case: {case}");
+                    std::process::exit(3);
+                }
+            }
+        });
+    }
     let stdin = std::io::stdin();
-    let stdout = std::io::stdout();
-    let mut w = std::io::BufWriter::with_capacity(1 << 20, stdout.lock());
     for (i, l) in stdin.lock().lines().enumerate() {
         let l = l.unwrap();
         if l.trim().is_empty() || l.starts_with('#') {
             continue;
         }
+        if let Ok(mut c) = current.lock() {
+            c.clear();
+            c.push_str(&l);
+        }
+        progress.store(i + 1, Ordering::SeqCst);
         let r = exec(i + 1, &l);
+        let mut buf = done_out.lock().unwrap();
         if verbose {
-            writeln!(w, "{l} => {r}").unwrap();
+            writeln!(buf, "{l} => {r}").unwrap();
         } else {
-            writeln!(w, "{r}").unwrap();
+            writeln!(buf, "{r}").unwrap();
+        }
+        if buf.len() > (1 << 20) {
+            std::io::stdout().write_all(&buf).unwrap();
+            buf.clear();
         }
     }
-    w.flush().unwrap();
+    progress.store(0, Ordering::SeqCst);
+    let buf = done_out.lock().unwrap();
+    let mut out = std::io::stdout();
+    out.write_all(&buf).unwrap();
+    out.flush().unwrap();
 }
